@@ -19,6 +19,7 @@ META = {
         'R4': 'image enumeration (C06.R1): every root child under each of the 3^d lattice shifts, once',
         'R5': 'plain search: distance_2 is the squared Euclidean distance to the generator, the envelope is the generator\'s point, the query is the generator position, items are (id, None)',
         'R6': 'reported shift == -(query shift), None iff zero (C03.R4)',
+        'R7': 'the builder consumes the candidate stream itself: exactly the first item (the generator, unshifted) is taken off before the loop and no filtering/truncating adaptor sits between the search and the clipping loop (C01.R1)',
     },
     'explanation': 'Decides the ingredients that make best-first search over the r-tree enumerate candidates completely and in non-decreasing distance: heap discipline '
                    '(R1), exact keys for leaves and admissible bounds for parents as polynomial identities (R2, R3), the seeds (R4), the plain search contract that rstar '
@@ -33,7 +34,7 @@ def run(ctx):
     for cfg in ctx.configs_used:
         F = ctx.facts(cfg)
         sfx = '' if cfg == 'default' else '@' + cfg
-        for fn in (r1, r2, r3, r4, r5, r6):
+        for fn in (r1, r2, r3, r4, r5, r6, r7):
             rule = 'C17.' + fn.__name__.upper()
             ctx.guarded(rule, 'evaluate' + sfx, lambda: fn(ctx, F, rule, sfx))
 
@@ -291,3 +292,8 @@ def r5(ctx, F, rule, sfx):
 def r6(ctx, F, rule, sfx):
     from . import c03
     c03.r4(ctx, F, rule, sfx)
+
+
+def r7(ctx, F, rule, sfx):
+    from . import c01
+    c01.r1(ctx, F, rule, sfx)
